@@ -544,6 +544,8 @@ class Checker:
                         self.rej("C10.valid-write", f"write of a valid value ({ev['wkind']} -> {ev.get('target')}) raised {ev['exc']}: {ev.get('exc_msg')}")
                     self.state = ev["target"]
                     self.stats["external_writes"] = self.stats.get("external_writes", 0) + 1
+                elif ev.get("wkind") == "model_garbage":
+                    self.stats["invalid_writes"] = self.stats.get("invalid_writes", 0) + 1
                 else:
                     if ev.get("exc") != "InvalidStateValue":
                         self.rej("C10.unmapped-rejected", f"unmapped value written through {ev['wkind']}: outcome {ev.get('exc')}, expected InvalidStateValue")
@@ -1172,6 +1174,16 @@ class Checker:
         if ev.get("what") == "other-activity":
             self.stats["other_instance_callbacks"] = self.stats.get("other_instance_callbacks", 0) + ev.get("callbacks", 0)
             self.stats["other_instance_steps"] = self.stats.get("other_instance_steps", 0) + 1
+        if ev.get("what") == "garbage-in-model":
+            self.stats["garbage_reads"] = self.stats.get("garbage_reads", 0) + 1
+            r = ev.get("reads", {})
+            if isinstance(r.get("is_active"), list) and sum(r["is_active"]) != 1:
+                self.rej("C10.one-active", f"model holds the unmapped value {ev.get('value')}: is_active of the states reads {r['is_active']} "
+                                           f"(current_state: {r.get('current_state')})")
+            if r.get("current_state") != "InvalidStateValue" and not isinstance(r.get("is_active"), list):
+                pass
+            if r.get("current_state") not in ("InvalidStateValue",):
+                self.rej("C10.unmapped-rejected", f"model holds the unmapped value {ev.get('value')}: current_state reads {r.get('current_state')}")
         if ev.get("what") == "odd-state-field":
             self.stats["odd_state_field_constructions"] = self.stats.get("odd_state_field_constructions", 0) + 1
             if ev.get("got") != ["built", "built"]:
@@ -1179,6 +1191,9 @@ class Checker:
                                                               f"and the next ordinary instance: {ev.get('got')}")
         if ev.get("what") == "incomplete-construct":
             self.stats["incomplete_constructions"] = self.stats.get("incomplete_constructions", 0) + (ev.get("expected") == "rejected")
+            if ev.get("got") == "rejected" and (ev.get("left_behind") is not None or ev.get("callbacks_ran")):
+                self.rej("C11.rejected-construction-has-no-effect", f"a construction rejected with InvalidDefinition left the state {ev.get('left_behind')} in the "
+                                                                    f"model and ran callbacks {ev.get('callbacks_ran')}: the next machine over that model would resume instead of activating")
             if ev.get("got") != ev.get("expected"):
                 self.rej("C16.definition-check-per-instance", f"another machine of the class over a bare model (names only other providers have: {ev.get('missing')}) was {ev.get('got')}, expected {ev.get('expected')}")
         if ev.get("what") == "foreign-trigger-fired":
